@@ -445,20 +445,22 @@ func TargetFor(route, id string, bid, exp *string) (method, target string) {
 
 // CodeRef names the code a websocket attempt presents.
 type CodeRef struct {
-	Kind string `json:"kind"`          // none | random | op | literal
+	Kind string `json:"kind"`          // none | random | op | literal | respell (the code of op Op in another spelling: How)
+	How  string `json:"how,omitempty"` // respell: upper | braces | urn | nohyphen | upper-braces
 	Lit  string `json:"lit,omitempty"` // literal: a code string anybody could think of (all-zero uuid, ...)
 	Op   int    `json:"op,omitempty"`  // index of the session request in this case whose code is presented
 }
 
 // Ws describes one websocket attempt.
 type Ws struct {
-	Path    string              `json:"path"`    // escaped path as sent
-	Decoded string              `json:"decoded"` // r.URL.Path the server is expected to see
-	Code    CodeRef             `json:"code"`
-	UA      int                 `json:"ua"`
-	Label   string              `json:"label,omitempty"`
-	Headers map[string][]string `json:"headers,omitempty"` // further headers of the upgrade request (X-Forwarded-For, ...)
-	Deflate bool                `json:"deflate,omitempty"` // offer permessage-deflate
+	Path       string              `json:"path"`    // escaped path as sent
+	Decoded    string              `json:"decoded"` // r.URL.Path the server is expected to see
+	Code       CodeRef             `json:"code"`
+	UA         int                 `json:"ua"`
+	Label      string              `json:"label,omitempty"`
+	Headers    map[string][]string `json:"headers,omitempty"`    // further headers of the upgrade request (X-Forwarded-For, ...)
+	Deflate    bool                `json:"deflate,omitempty"`    // offer permessage-deflate
+	Unmodelled bool                `json:"unmodelled,omitempty"` // dial only: not an operation of the model, no listing poll (an attempt in the very second the token expires: whether the listing still shows it is a race)
 }
 
 // Op is one step of a case.
